@@ -214,7 +214,11 @@ func Statements(s *gen.Schema, thorough bool) []gen.Stmt {
 			gen.Stmt{Name: "ups-pk-assign", Kind: "upsert-pk", SQL: "INSERT INTO t_s1 (id, name, cnt) VALUES (1, 'z', 9) ON DUPLICATE KEY UPDATE id = 60"},
 			// the key column spelled in another letter case than the table meta spells it (column names are case-insensitive)
 			gen.Stmt{Name: "ups-pk-assign-upper", Kind: "upsert-pk", SQL: "INSERT INTO t_s1 (id, name, cnt) VALUES (1, 'z', 9) ON DUPLICATE KEY UPDATE ID = ID + 100"},
-			gen.Stmt{Name: "pk-assign-upper", Kind: "update-pk", SQL: "UPDATE t_s1 SET ID = 52 WHERE id = 1"})
+			gen.Stmt{Name: "pk-assign-upper", Kind: "update-pk", SQL: "UPDATE t_s1 SET ID = 52 WHERE id = 1"},
+			// keys shifting into each other: some old key values exist again afterwards (as other rows)
+			gen.Stmt{Name: "pk-assign-shift", Kind: "update-pk", SQL: "UPDATE t_s1 SET id = id + 1 WHERE id IN (2, 3) ORDER BY id DESC"},
+			gen.Stmt{Name: "pk-assign-shift-bound", Kind: "update-pk", SQL: "UPDATE t_s1 SET id = id + ?, cnt = cnt + 1 WHERE id >= ? ORDER BY id DESC", Args: []interface{}{int64(1), int64(2)}},
+			gen.Stmt{Name: "pk-assign-swap-down", Kind: "update-pk", SQL: "UPDATE t_s1 SET id = id - 1 WHERE id IN (2, 3) AND cnt >= 20 ORDER BY id"})
 	case "s3":
 		out = append(out, gen.Stmt{Name: "pk-assign", Kind: "update-pk", SQL: "UPDATE t_s3 SET b = 'new' WHERE a = 1 AND b = 'x'"})
 	case "s4":
